@@ -295,7 +295,7 @@ func classify(k *keystore.Key, err error, want *base) outcome {
 	if k == nil || k.PrivateKey == nil {
 		return outcome{"other-key", "nil key without error"}
 	}
-	got := crypto.FromECDSA(k.PrivateKey)
+	got := k.PrivateKey.Serialize() // 32 bytes, zero padded
 	if !bytes.Equal(got, want.d) {
 		return outcome{"other-key", fmt.Sprintf("key %x address %x", got, k.Address)}
 	}
@@ -967,23 +967,30 @@ func lenClass(p string) string {
 	return ">64"
 }
 
-// tamperBases: thorough alters every base. Quick alters every repository vector, every key of the
-// v3-scrypt format under one passphrase, and for each format one key (leading zero byte) under every
-// passphrase: the verdict of an alteration depends on key and passphrase only through the derived
-// key and the plaintext, which these cover.
+// tamperBases: thorough alters every base. Quick alters every cheap repository vector and, per
+// format, a few (key, passphrase) pairs chosen so that every key class that changes the plaintext
+// handling (leading zero bytes, extreme values) and every passphrase class occurs: the verdict of an
+// alteration depends on key and passphrase only through the derived key and the plaintext.
 func tamperBases(run *ev.Run, bases []base) []base {
 	if run.Thorough() {
 		return bases
 	}
+	pick := map[string]bool{
+		"v3-scrypt/key=lead1/pass=empty": true, "v3-scrypt/key=lead1/pass=a": true, "v3-scrypt/key=lead1/pass=long200": true,
+		"v3-scrypt/key=lead1/pass=nonascii": true, "v3-scrypt/key=one/pass=nonascii": true, "v3-scrypt/key=n-1/pass=nonascii": true,
+		"v3-scrypt/key=lead2/pass=a":        true,
+		"v3-pbkdf2/key=lead1/pass=nonascii": true, "v3-pbkdf2/key=ord1/pass=empty": true,
+		"v1-scrypt/key=lead1/pass=nonascii": true, "v1-scrypt/key=n-1/pass=long200": true,
+		"v3-scrypt-short/key=lead1/pass=a": true, "v3-scrypt-short/key=lead2/pass=empty": true,
+	}
 	var out []base
 	for _, b := range bases {
-		switch {
-		case strings.HasPrefix(b.format, "repo-"),
-			strings.Contains(b.name, "/key=lead1/"),
-			b.format == "v3-scrypt" && strings.Contains(b.name, "/pass=nonascii"),
-			b.format == "v1-scrypt" && strings.Contains(b.name, "/key=n-1/pass=nonascii"):
+		if strings.HasPrefix(b.format, "repo-") || pick[b.name] {
 			out = append(out, b)
 		}
+	}
+	if len(out) != len(pick)+3 {
+		ev.Broken("quick tamper base selection found %d bases, want %d", len(out), len(pick)+3)
 	}
 	return out
 }
@@ -1009,10 +1016,9 @@ func tamperAll(run *ev.Run, bases []base, deadline time.Time) {
 	}
 	seenFmt := map[string]bool{}
 	for i := range bases {
-		if os.Getenv("VERIF_C20_NOFILES") != "" {
-			continue
-		}
-		if !seenFmt[bases[i].format] && !strings.Contains(bases[i].format, "_byte_key") || run.Thorough() {
+		// quick: the first base of each format; thorough: one key under every passphrase of every format, and all repository vectors
+		if !seenFmt[bases[i].format] && !strings.Contains(bases[i].format, "_byte_key") ||
+			run.Thorough() && (strings.Contains(bases[i].name, "/key=lead1/") || strings.HasPrefix(bases[i].format, "repo-")) {
 			seenFmt[bases[i].format] = true
 			bases[i].full = true
 		}
